@@ -36,6 +36,16 @@ Proof.
   apply G. exact I.
 Qed.
 
+Lemma firstn_incr : forall n (l : list N) lo, incr_gt lo l -> incr_gt lo (firstn n l).
+Proof.
+  induction n as [|n IH]; intros [|x r] lo H; cbn [firstn incr_gt] in *; try exact I.
+  destruct H as (A & B). split; [assumption | apply IH, B].
+Qed.
+Lemma firstn_sincr : forall n (l : list N), sincr l -> sincr (firstn n l).
+Proof.
+  intros [|n] [|x r] H; cbn [firstn sincr] in *; try exact I. now apply firstn_incr.
+Qed.
+
 (* contiguous pieces keep the order *)
 Lemma skip_while_gt : forall (p : N * N -> bool) l lo, incr_gt lo (map fst l) -> incr_gt lo (map fst (skip_while p l)).
 Proof.
@@ -62,14 +72,14 @@ Qed.
 
 Lemma two_pass_sincr : forall o sum outs data_size, sincr (zoom_sizes_two_pass o sum (total_zoom_counts outs) data_size).
 Proof.
-  intros o sum outs data_size. unfold zoom_sizes_two_pass. destruct (o_manual o); [apply sort_dedup_sincr|].
+  intros o sum outs data_size. unfold zoom_sizes_two_pass. destruct (o_manual o); [apply firstn_sincr, sort_dedup_sincr|].
   apply (incr_gt_sincr _ 0). apply take_while_gt, firstn_gt, skip_while_gt, skip_while_gt.
   unfold total_zoom_counts. rewrite map_map. cbn [fst]. rewrite map_id.
   unfold total_ladder. apply ladder_gt; unfold ZOOM_COUNT_FIRST; lia.
 Qed.
 
 Lemma single_sincr : forall o, sincr (zoom_sizes_single o).
-Proof. intro. unfold zoom_sizes_single. apply sort_dedup_sincr. Qed.
+Proof. intro. unfold zoom_sizes_single. apply firstn_sincr, sort_dedup_sincr. Qed.
 
 Lemma mapM_fst : forall fp o cs sizes levels, mapM (level_of fp o cs) sizes = Ok levels -> map fst levels = sizes.
 Proof.
